@@ -33,6 +33,7 @@ import (
 	chart "helm.sh/helm/v4/pkg/chart/v2"
 	"helm.sh/helm/v4/pkg/chart/v2/loader"
 	chartutil "helm.sh/helm/v4/pkg/chart/v2/util"
+	"helm.sh/helm/v4/pkg/ignore"
 
 	"verif/harness/internal/hx"
 )
@@ -341,7 +342,7 @@ func c15ExecRt(c *c15Case, tmp string) (obs c15Obs) {
 		for _, f := range obs.Tree {
 			orc.addFile(f.Name, f.Data)
 		}
-		orc.addIgnore(root, obs.Tree)
+		obs.IgnoreErr = orc.addIgnore(root, obs.Tree)
 		obs.Ignored = orc.ignoredFiles
 		l, err := loader.Load(root)
 		obs.DirErr = c15LoadErrClass(err)
@@ -516,6 +517,11 @@ func c15Wf(s *c15Chart, top bool) bool {
 	for _, f := range s.Files {
 		if !c15CleanRel(f.Name) || strings.HasPrefix(f.Name, "templates/") || dup(f.Name) {
 			return false
+		}
+		if f.Name == ignore.HelmIgnore {
+			if _, err := ignore.Parse(bytes.NewReader(f.Data)); err != nil {
+				return false // the directory loader reads it as rules; garbage there is not a valid chart
+			}
 		}
 		if strings.HasPrefix(f.Name, "charts/") && filepath.Ext(f.Name) != ".prov" {
 			return false
